@@ -50,7 +50,11 @@ class Facts:
         rhs_value: Callable[[ast.AST], str | None] | None = None,
         cg=None,
         unit=None,
+        taskvars: Iterable[str] = (),
     ):
+        # names of module-level ContextVars: `NAME.get()` is task-local, so only an explicit write to NAME in this
+        # task invalidates it (awaits and opaque callbacks do not: user handlers do not touch private bus state)
+        self.taskvars = set(taskvars)
         self.tracked = tracked
         self.sticky_true = set(sticky_true)  # atoms that, once truthy, stay truthy (monotone signals)
         self.rhs_value = rhs_value
@@ -60,6 +64,14 @@ class Facts:
     def _invalidate(self, st: ast.AST, env: dict) -> None:
         """Forget non-local atoms that executing *st* may change."""
         nonlocal_atoms = [a for a in env if ('(' in a or '.' in a) and not (a in self.sticky_true and env[a] in TRUTHY)]
+        if self.taskvars:
+            tv = [a for a in nonlocal_atoms if a.endswith('.get()') and a[:-6] in self.taskvars]
+            if tv:
+                nonlocal_atoms = [a for a in nonlocal_atoms if a not in tv]
+                written_tv = self.cg.stmt_writes(st, self.unit) if (self.cg is not None and self.unit is not None) else {'*'}
+                for a in tv:
+                    if a[:-6] in written_tv or (self.cg is None and any(isinstance(x, ast.Call) for x in ast.walk(st))):
+                        del env[a]
         if not nonlocal_atoms:
             return
         if contains_await(st):
@@ -226,9 +238,26 @@ class Facts:
             for sub in ast.walk(st.target):
                 if isinstance(sub, ast.Name):
                     self._kill_mentions(env, sub.id)
-            self._havoc_nonlocal(env)
+            if isinstance(st, ast.AsyncFor):
+                self._havoc_nonlocal(env)
+            else:
+                self._invalidate(st.iter, env)
         elif n.kind in ('with', 'withexit'):
             self._havoc_nonlocal(env)
+            if self.taskvars and self.cg is not None and self.unit is not None:
+                is_async = isinstance(st, ast.AsyncWith)
+                meth = ('__aenter__' if is_async else '__enter__') if n.kind == 'with' else ('__aexit__' if is_async else '__exit__')
+                for it in st.items:  # type: ignore[union-attr]
+                    t = self.cg.prog.infer(it.context_expr, self.unit)
+                    written: set[str] = {'*'}
+                    if t is not None and t.kind == 'cls':
+                        m = self.cg.prog.method(t.name, meth)
+                        written = set(self.cg.twrites(m)) if m is not None else set()
+                    elif t is not None and t.kind == 'lib':
+                        written = set()
+                    for a in list(env):
+                        if a.endswith('.get()') and a[:-6] in self.taskvars and (a[:-6] in written):
+                            del env[a]
             if n.kind == 'with':
                 for it in st.items:  # type: ignore[union-attr]
                     if it.optional_vars is not None:
@@ -244,6 +273,8 @@ class Facts:
 
     def _havoc_nonlocal(self, env: dict) -> None:
         for a in list(env):
+            if a.endswith('.get()') and a[:-6] in self.taskvars:
+                continue
             if ('(' in a or '.' in a) and not (a in self.sticky_true and env[a] in TRUTHY):
                 del env[a]
 
